@@ -109,6 +109,16 @@ def handle : List String → String
     | some l => optHex (Records.toImmutable l) | none => "bad-op"
   | ["leasemut", o, r, c, e, n] => match parseLease o r c e n with
     | some l => optHex (Records.toMutable l) | none => "bad-op"
+  | ["leasecycle", fmt, o, r, c, e, n, es] =>
+    let isMut := fmt == "mut"
+    match parseLease o r c e n, (es.splitOn ",").mapM String.toInt? with
+    | some l, some es =>
+      (match (if isMut then Records.toMutable l else Records.toImmutable l) with
+       | none => "err"
+       | some b0 =>
+         "ok " ++ ";".intercalate ((some b0 :: Records.renewCycle isMut b0 es).map
+           (fun ob => match ob with | some b => hexOfBytes b | none => "err")))
+    | _, _ => "bad-op"
   | ["unleaseimm", x] => match bytesOfHex x with
     | some b => (match Records.fromImmutable b with | some l => showLease l | none => "err") | none => "bad-op"
   | ["unleasemut", x] => match bytesOfHex x with
